@@ -32,6 +32,18 @@ THEOREMS = {
 }
 MODULES = {"C01": ["QuillModel.Props.C01"], "C09": ["QuillModel.Props.C09", "QuillModel.Props.C02"]}
 OBLIG = ["QuillModel.Obligations.Queue"]
+OBLIG_BY_PROP = {"C01": list(OBLIG), "C09": list(OBLIG)}
+# C09 end to end on the backend model (a blocked log call resumes once the backend drained its queue; a call after the drain
+# is accepted, never dropped): theorems of prover bundle B, picked up when that bundle lists them
+try:
+    import importlib
+    _bB = importlib.import_module("props.backend_thm_B")
+    if getattr(_bB, "THEOREMS", {}).get("C09"):
+        THEOREMS["C09"] = THEOREMS["C09"] + list(_bB.THEOREMS["C09"])
+        MODULES["C09"] = MODULES["C09"] + list(_bB.MODULES.get("C09", []))
+        OBLIG_BY_PROP["C09"] = OBLIG_BY_PROP["C09"] + list(getattr(_bB, "OBLIG", []))
+except Exception:  # the queue-level theorems stand on their own
+    pass
 
 # which ORACLE lines belong to which property
 C09_ORACLES = ("drained-queue-refuses",)
@@ -77,7 +89,7 @@ def run(prop, tier):
         "each queue member function performs at most one cross-thread atomic access, so API-call granularity + stale loads covers every interleaving (the shim counts accesses per call)",
         "QUILL_X86ARCH cache-line flush intrinsics are not modelled",
     ]
-    ps = ck.proof_side(MODULES[prop], THEOREMS[prop], OBLIG)
+    ps = ck.proof_side(MODULES[prop], THEOREMS[prop], OBLIG_BY_PROP[prop])
     ex = ck.extracted
     pargs = params_args(ex)
     for b in ps["broken"]:
